@@ -269,14 +269,15 @@ impl<A: Codec> Seq<A> {
     pub fn from_raw(len: usize, bits: &[usize]) -> Option<Self> {
         let mut bv: Bv = Bv::from_slice(bits);
         //debug_assert!(len <= bv.len(), "desired length is greater than provided bits string");
-        if len > bv.len() {
-            None
-        } else {
-            bv.truncate(len * A::BITS as usize);
-            Some(Seq {
-                _p: PhantomData,
-                bv,
-            })
+        match len.checked_mul(A::BITS as usize) {
+            Some(bits) if bits <= bv.len() => {
+                bv.truncate(bits);
+                Some(Seq {
+                    _p: PhantomData,
+                    bv,
+                })
+            }
+            _ => None,
         }
     }
 
